@@ -221,9 +221,11 @@ LOOP:
 			return nn
 		}
 
-		// 不匹配子元素，则恢复原有数据
+		// 不匹配子元素，则恢复原有数据，包括 child 捕获的参数。
 		ctx.Path = path
-		ctx.Delete(n.segment.Name)
+		if child.segment.Type != syntax.String {
+			ctx.Delete(child.segment.Name)
+		}
 	}
 
 	// 没有子节点匹配，len(p.Path)==0，且子节点不为空，可以判定与当前节点匹配。
